@@ -338,7 +338,7 @@ theorem v1_core (P : X.Program) (m : X.Proc) (inp : X.Input) (fuel : Nat) (β : 
       n ∈ cg.tbl.map (fun e => e.1.2) := by
     intro n a h
     exact v1Loc_names cg _ _ _ n a h
-  have wf0 := wfsCheck_sound _ _ _ hnames (PCtx.arrOK_of_none _ (fun _ => rfl)) hy
+  have wf0 := wfsCheck_sound _ _ _ hnames (PCtx.arrOK_of_none _ (fun _ => rfl)) (PCtx.strOK_of_none _ rfl) hy
   obtain ⟨K, hK⟩ : ∃ K : PCtx, K = v1K cg env (v1Ctx P m fuel) gs2.constMap m.locals.length memP.read :=
     ⟨_, rfl⟩
   have wf : K.WFS (iEpi cg.data (frameOf cg 0).size (lowerCode cg code)) := by rw [hK]; exact wf0
@@ -361,7 +361,8 @@ theorem v1_core (P : X.Program) (m : X.Proc) (inp : X.Input) (fuel : Nat) (β : 
     refine ⟨by rw [hKsp]; exact hP1, fun n w h => by rw [hKρ] at h; simp at h, ?_, ?_, ?_, ?_,
       fun n hn => by rw [hK] at hn; simp [v1K] at hn, by rw [hK]; rfl,
       fun n r h => by rw [hKxc] at h; exact absurd h (readName_start_arr P m inp fuel n r),
-      fun id cells h => by simp [v1Start] at h⟩
+      fun id cells h => by simp [v1Start] at h,
+      fun l bs ws j k h => by rw [hK] at h; simp [v1K] at h⟩
     · intro n w _ h
       rw [hKxc] at h
       exact absurd h (readName_start P m inp fuel n w)
